@@ -36,6 +36,10 @@ def gc_scenario(sid, hist, typ, rng):
         k, q = h["k"], qmap.get(h["q"], h["q"])
         if k == "ready":
             sc["steps"].append({"k": "ready", "v": h["q"] == 1})
+        elif k == "global":
+            if typ != "mif":
+                continue
+            sc["steps"].append({"k": "global", "q": h["q"]})
         elif k == "accept":
             sc["steps"].append({"k": "acq", "accept": True, "limit": q})
         elif k == "reject":
@@ -145,6 +149,11 @@ def main(tier, replay):
             if len(gh) < 10:
                 raise Infra("too few global-count histories")
             scs += [gc_scenario(700001 + i, h, "mif" if i % 4 else "tb", rng) for i, h in enumerate(gh[:ng])]
+            # directed: the configured global limit is LOWERED while the server is failing, then the server comes back with more than that
+            for i, (fail, g, back) in enumerate([("err", 6, ("accept", 8)), ("silent", 4, ("accept", 250)), ("transport", 6, ("reject", 9)), ("err", 4, ("accept", 10)),
+                                                 ("silent", 6, ("reject", 250)), ("err", 6, ("accept", 5))]):
+                hist = [{"k": "accept", "q": 8}, {"k": fail, "q": 0}, {"k": "global", "q": g}, {"k": back[0], "q": back[1]}, {"k": fail, "q": 0}, {"k": "global", "q": 10}, {"k": "accept", "q": 9}]
+                scs.append(gc_scenario(710001 + i, hist, "mif", rng))
             # no client set at all (limiter server not configured): always the local limit
             scs.append({"id": 900001, "type": "mif", "strategy": "globalAllocate", "local": 3, "global": 10, "localBurst": 0, "globalBurst": 0, "nilClientSets": True,
                         "steps": [{"k": "measure"}, {"k": "sleep", "ms": 5000}, {"k": "measure"}]})
